@@ -11,9 +11,9 @@ PLAN = {
     "manifest": {
         "technique": "Kani/CBMC on the real layer code with one recording recorder double: complete forwarding/routing glue with the aho-corasick matcher and the radix_trie stubbed (their contracts ASSUMED), full-domain MetricKindMask, concrete-string smoke check of the prefix helpers, bounded fanout width (w <= 3), Stack::push by unfolding",
         "text": "Per layer, on the real code: Filter -- with should_filter replaced by a symbolic verdict the verdict is asked once about the metric name; true => inner not called and an inert handle returned, false => inner called exactly once with identical arguments (all 6 operations). Router -- route(kind, name) is the default when the global mask does not name the kind (trie not consulted), otherwise targets[i] for the index the kind's trie returns for the name, or the default on None; each of the 6 methods consults the trie of its own kind once and forwards exactly once to that recorder; add_route stores the pre-push length into exactly the tries its mask names, ORs the mask, and the stored index is in bounds for the unchecked access; MetricKindMask::matches/BitOr over 3 kinds x all 256 masks. Prefix -- forwarded exactly once with name == prefix ++ '.' ++ name, labels/metadata/unit/description untouched, for 3 concrete prefixes (ASCII, empty, non-ASCII) x 2 concrete names: a smoke check, strings are not symbolic. Fanout -- every describe/register reaches each of w <= 3 recorders once with equal arguments and every update through a fanned-out handle reaches each inner handle once (bounded). Stack::new is transparent and Stack::new(r).push(a).push(b) behaves as b.layer(a.layer(r)).",
-        "note": "ASSUMED, not executed: aho-corasick is_match <=> the name contains a configured pattern (ASCII-case-insensitively iff configured) and FilterLayer::layer builds that automaton; radix_trie insert/get_ancestor = store / longest stored key that is a prefix of the name (measured: real trie lookups time out under CBMC). 'Longest prefix' and 'contains pattern' themselves therefore rest on those crates. Prefix string equality is checked on concrete strings only (no Verus template for prefix_key was written); fanout width <= 3 is bounded, not proved.",
+        "note": "Verus (glue.verus.rs): FilterLayer::layer builds the automaton from exactly the configured patterns, case-insensitive iff configured whatever the kind, DFA iff asked (builder stub records its settings); Router::route returns the default unless the mask names the kind and the trie's get_ancestor (longest stored prefix, ASSUMED contract) answers, then that target, with the unchecked index proved in bounds from the route-table invariant. ASSUMED, not executed: aho-corasick is_match <=> the name contains a configured pattern (ASCII-case-insensitively iff configured); radix_trie insert/get_ancestor = store / longest stored key that is a prefix of the name (measured: real trie lookups time out under CBMC). 'Longest prefix' and 'contains pattern' themselves therefore rest on those crates. Prefix string equality is checked on concrete strings only (no Verus template for prefix_key was written); fanout width <= 3 is bounded, not proved.",
     },
-    "min_obligations": {"quick": 8, "thorough": 8},
+    "min_obligations": {"quick": 12, "thorough": 12},
     "assumptions": [
         "aho-corasick contract (ASSUMED): AhoCorasick::is_match(name) is true iff name contains at least one of the patterns given to the builder, comparing ASCII letters case-insensitively iff ascii_case_insensitive(true); FilterLayer::layer (builder configuration, DFA/NFA choice) is not executed. Filter::should_filter is stubbed by a symbolic verdict",
         "radix_trie contract (ASSUMED): Trie::insert(k, v) stores v under k (later insert of an equal key overwrites); Trie::get_ancestor(name) returns the entry with the longest stored key that is a prefix of name, or None, and its value() is Some(stored value). Trie::insert is stubbed by a recording model in c13_router_add_route; Trie::get_ancestor cannot be stubbed (named lifetime in its signature, Kani 0.68 finds no type-compatible stub), so the route harnesses execute the REAL trie in its two cheap states -- empty (answer None) and a single entry at the empty key (answer Some(i) for every name, i symbolic) -- which cover both shapes of the only value the glue reads from the trie; that the trie is not even consulted when the mask does not name the kind is therefore not observed",
@@ -24,6 +24,10 @@ PLAN = {
         "router lookups use the empty metric name / label-less key only (non-empty names make the real trie walk unaffordable); which string is handed to get_ancestor is not observed",
         "argument identity is checked by pointer+length for names/descriptions/label parts/metadata and by value for units; two names (one empty), four unit options, keys with 0 and 2 labels",
         "panic = failure; unwinding not modelled; single-threaded (layers hold no shared mutable state)",
+    ],
+    "verus": [
+        # layer glue the Kani harnesses take as given: Router::route's use of the trie answer, FilterLayer::layer's automaton settings
+        {"template": "glue.verus.rs", "tier": "quick", "rlimit": 30, "min_functions": 2},
     ],
     "kani": [{
         "crate": "metrics-util",
